@@ -204,6 +204,8 @@ func (st *PrefixStorage) origkey(b []byte) ([]byte, error) {
 	defer st.RUnlock()
 
 	switch {
+	case st.prefix == nil:
+		return nil, storage.ErrClosed.WithStack()
 	case len(b) < 1:
 		return nil, nil
 	case len(b) < st.prefixlen:
